@@ -8,6 +8,9 @@
 // signature re-encoding and every edit of the *decoded* signature bytes is given to Decode+Check+Add.
 // Oracle: accepted => the signed content bytes and the decoded signature are those of the validly
 // signed original.
+// Part 3 (key history, verif_c18_hist_test.go): the signing account-key is stored and then superseded by 0..2 newer
+// revisions (validity moved, constraints added / lifted / no longer admitting) in memory and filesystem backstores and
+// in stacked databases; the verdict must be the one implied by the newest stored revision of the key.
 //
 // In-package (package asserts_test) because the clock seam asserts.MockTimeNow lives in export_test.go.
 package asserts_test
@@ -936,6 +939,7 @@ func TestVerifC18(t *testing.T) {
 	r := eng.Start("C18", "exploration", 300*time.Second, 14*time.Minute)
 	r.Assume("reference predicate c18Ref transcribed from the statement (earliest-time mode: a key is acceptable if it can be valid at some time >= earliest)",
 		"the harness' own splitter (last blank line), base64 layer and raw OpenPGP signer (golang.org/x/crypto/openpgp/packet) define 'signed content' and 'decoded signature'",
+		"key history: reference c18HistRef computed from the menu entry (validity window, constraints) of the newest stored revision of the signing account-key; every revision is added through the real Database.Add at a time inside every validity",
 		"fixed 1024-bit RSA test keys; fixture prerequisites (accounts, account-keys, snap-declaration) satisfy every cross-consistency check so that only signature/validity/constraints decide")
 
 	if rc := r.ReplayCase(); rc != nil {
@@ -1036,9 +1040,6 @@ func TestVerifC18(t *testing.T) {
 	r.Add("matrix_accepted", matrixAccepted)
 	r.Add("matrix_reference_rejects", matrixRejectWanted)
 
-	// ---- part 3: key history (see verif_c18_hist_test.go; parallel over databases, one clock point at a time) ----
-	hst := c18RunHistories(r, fx, &overReject)
-
 	// ---- part 2: edits (parallel; fixed clock inside every validity) ----
 	restore := asserts.MockTimeNow(c18Mid)
 	defer restore()
@@ -1127,6 +1128,9 @@ func TestVerifC18(t *testing.T) {
 	if atomic.LoadInt32(&capped) != 0 {
 		r.Cap("time", "edit enumeration stopped early; counts say what was done")
 	}
+	// ---- part 3: key history (see verif_c18_hist_test.go; parallel over databases, one clock point at a time) ----
+	hst := c18RunHistories(r, fx, &overReject)
+
 	r.Add("edit_cases", editCases)
 	r.Add("edit_cases_on_decoded_signature", sigRawCases)
 	r.Add("edits_accepted_benign", editAccepted)
